@@ -1,4 +1,7 @@
 """C16 — Interaction constructors validate and classify exactly."""
+LEAN_TARGETS = ["QmcProps.C16", "drv_c16"]
+BINS = ["c16"]
+
 THEOREMS = [
     "pow2_iff",
     "matVarSize_iff",
@@ -29,9 +32,9 @@ RULE = ("every matrix length 0..70 x variable-list length 0..4 x 4 constructor v
 
 
 def main(ck):
-    if ck.lake_build(["QmcProps.C16", "drv_c16"]):
+    if ck.lake_build(LEAN_TARGETS):
         ck.audit("QmcProps.C16", ["Qmc.C16." + t for t in THEOREMS])
-    if ck.cargo_build(["c16"]):
+    if ck.cargo_build(BINS):
         cases = ck.harness("c16", ["all"])
         ck.correspond("interaction-constructors", "drv_c16", cases)
     return ck.finish(RULE)
